@@ -50,6 +50,31 @@ func resolveStrings(v ssa.Value, depth int) (out []string, ok bool) {
 	case *ssa.UnOp:
 		if x.Op == token.MUL {
 			switch a := x.X.(type) {
+			case *ssa.IndexAddr:
+				// element of a local array/slice literal: collect every element store
+				base := a.X
+				if sl, isSl := base.(*ssa.Slice); isSl {
+					base = sl.X
+				}
+				if al, isAl := base.(*ssa.Alloc); isAl {
+					any := false
+					for _, r := range *al.Referrers() {
+						ia, isIA := r.(*ssa.IndexAddr)
+						if !isIA {
+							continue
+						}
+						for _, r2 := range *ia.Referrers() {
+							if st, isSt := r2.(*ssa.Store); isSt && st.Addr == ia {
+								ss, k := resolveStrings(st.Val, depth+1)
+								out = append(out, ss...)
+								any = any || k
+							}
+						}
+					}
+					if len(out) > 0 {
+						return out, any
+					}
+				}
 			case *ssa.Alloc:
 				any := false
 				for _, r := range *a.Referrers() {
